@@ -328,6 +328,7 @@ def run(ctx):
     workdir_rule(ctx, syn, rid="C05.WORKDIR")   # the @include of a stand-off file is written through the same helper
     ext_rule(ctx)
     dtexact_rule(ctx, syn)
+    alwaysid_rule(ctx)
     from props.c11 import name_rule
     name_rule(ctx, rid="C05.NAME")   # to_file(name) / from_file(name): the manifest or store file is written under the name given
     mir_rules(ctx)
@@ -614,3 +615,28 @@ def dtexact_rule(ctx, syn, rid="C05.DTEXACT"):
     has_attr = [f_ for st in syn.enums.values() for v in st.get("variants", []) for f_ in v.get("fields", []) if any("serialize_with" in (a.get("tokens") or "") for a in f_.get("attrs", []) or [])]
     r.notes.append("datetime renderings seen: %d; enum fields with a custom serialize_with: %d" % (n, len(has_attr)))
     r.hit("scan", sample={"renderings": n})
+
+
+# ---------------------------------------------------------------------- ALWAYSID
+def alwaysid_rule(ctx, rid="C05.ALWAYSID"):
+    """an annotation without a public id is written with its temporary id (`!A<handle>`): annotation selectors that point
+    at it are written with that id, and the reader re-creates the gaps of removed annotations from these numbers.  So
+    the annotation writer emits "@id" on every path to `end()` - one of the two kinds."""
+    import mirq
+    r = ctx.rule(rid, "Serialize for ResultItem<Annotation> writes an \"@id\" member on every path to the end of the object (the public id or the temporary one)")
+    prog = mirq.Program(ctx.facts.mir())
+    bs = prog.find_bodies(r"^annotation::<impl annotation::_::_serde::Serialize for store::ResultItem<'a, annotation::Annotation>>::serialize$")
+    if len(bs) != 1:
+        ctx.anchor_missing(r, "Serialize for ResultItem<Annotation>")
+        return
+    b = bs[0]
+    ctx.functions_analysed.add(b.id)
+    ids = set(bi for bi, t in b.calls() if (mirq.callee_of(t)[0] or "").endswith("SerializeStruct::serialize_field") and len(t.get("args", [])) >= 2 and str(b.key_of_operand(t["args"][1])) == 'const:"@id"')
+    ends = [bi for bi, t in b.calls() if (mirq.callee_of(t)[0] or "").endswith("SerializeStruct::end")]
+    r.hit("writer", sample={"id_writes": len(ids), "object_ends": len(ends)})
+    if not ends:
+        ctx.anchor_missing(r, "SerializeStruct::end in the annotation writer")
+    for e_ in ends:
+        if b.can_reach(0, e_, avoid=ids):
+            ctx.report(r, "path-without-id", "the annotation writer can reach the end of the JSON object without having written \"@id\": an annotation without a public id then carries no temporary id in the file, the `!A<n>` references other annotations hold are resolved against renumbered handles after a reload, and they silently attach to a different annotation", b.file, b.blocks[e_]["t"].get("line"))
+            break
